@@ -197,21 +197,22 @@ def geoHashH (args : List Bytes) : HRes :=
 /-- a coordinate as the handler writes it (`strconv.FormatFloat(x, 'f', -1, 64)`): the
     implementation's text if it denotes exactly `x`, the bit pattern when no text is at hand (a command
     queued in MULTI), a marker otherwise -/
-def coordTok (x : F64) (t : Option Bytes) : Tok :=
+def coordText (x : F64) (t : Option Bytes) : Bytes :=
   match t with
-  | none => .bulk (GeoText.bitsText x)
-  | some t => if GeoText.parseFloat t = some (some x) then .bulk t else .bulk (Bytes.ofString "INVALID-CHOICE")
+  | none => GeoText.bitsText x
+  | some t => if GeoText.parseFloat t = some (some x) then t else Bytes.ofString "INVALID-CHOICE"
 
-/-- GEOPOS: `Latitude: lat, Longitude: lng` with `lat, lng := DecodeToLongLatWGS84(…)`, which returns
-    (longitude, latitude): the reply has the latitude first (FINDINGS.md) -/
-def geoPosToks (z : ZSet) : List Bytes → List Bytes → List Tok
+/-- GEOPOS, one value per member: `Latitude: lat, Longitude: lng` with
+    `lat, lng := DecodeToLongLatWGS84(…)`, which returns (longitude, latitude): the reply has the
+    latitude first (FINDINGS.md) -/
+def geoPosVals (z : ZSet) : List Bytes → List Bytes → List (List Tok)
   | [], _ => []
   | m :: rest, texts =>
     match DsZSet.zScore z m with
-    | none => .nullBulk :: geoPosToks z rest texts
+    | none => [.nullBulk] :: geoPosVals z rest texts
     | some sc =>
-      let (lon, lat) := scorePos sc
-      [.arr 2, coordTok lat texts.head?, coordTok lon (texts.drop 1).head?] ++ geoPosToks z rest (texts.drop 2)
+      [.arr 2, .bulk (coordText (scorePos sc).2 texts.head?), .bulk (coordText (scorePos sc).1 (texts.drop 1).head?)]
+        :: geoPosVals z rest (texts.drop 2)
 
 def geoPosH (args : List Bytes) : HRes :=
   match args with
@@ -221,16 +222,13 @@ def geoPosH (args : List Bytes) : HRes :=
       if !okk then panicOut s else            -- `meta == nil` never holds: the empty record's nil value is asserted
       match asZSet s key with
       | none => panicOut s
-      | some z => done s (.arr ((m0 :: ms).length) :: geoPosToks z (m0 :: ms) (ch.getD []))
+      | some z => done s (.arr ((m0 :: ms).length) :: (geoPosVals z (m0 :: ms) (ch.getD [])).flatten)
   | _ => errReply
 
 def zeroDist : Bytes := Bytes.ofString "0.0000"
 
 /-- an opaque `%0.4f` text from the implementation -/
-def distTok (t : Option Bytes) : Tok :=
-  match t with
-  | some t => .bulk t
-  | none => .bulk (Bytes.ofString "DIST")
+def distText (t : Option Bytes) : Bytes := t.getD (Bytes.ofString "DIST")
 
 def geoDistH (args : List Bytes) : HRes :=
   match args with
@@ -244,7 +242,7 @@ def geoDistH (args : List Bytes) : HRes :=
         match DsZSet.zScore z m1, DsZSet.zScore z m2 with
         | some s1, some s2 =>
           if F64.toUInt64 s1 = F64.toUInt64 s2 then done s [.bulk zeroDist]
-          else done s [distTok (ch.bind (·.head?))]
+          else done s [.bulk (distText (ch.bind (·.head?)))]
         | _, _ => done s [.nullBulk]
   | _ => errReply
 
@@ -268,26 +266,31 @@ def chunks (n : Nat) : Nat → List Bytes → List (List Bytes)
   | 0, _ => []
   | fuel + 1, l => if n = 0 ∨ l.length < n then [] else l.take n :: chunks n fuel (l.drop n)
 
-/-- one element of a radius reply; `fixedDist` = the text the model knows (GEORADIUSBYMEMBER) -/
+def invalidChoice : Bytes := Bytes.ofString "INVALID-CHOICE"
+
+/-- the distance text of one element; `fixedDist` = the text the model knows (GEORADIUSBYMEMBER) -/
+def elemDist (fixedDist : Option Bytes) (t : Option Bytes) : Bytes :=
+  match fixedDist with
+  | some d => if t = some d then d else invalidChoice
+  | none => distText t
+
+/-- one element of a radius reply -/
 def radiusElem (z : ZSet) (o : RadiusOpts) (fixedDist : Option Bytes) (c : List Bytes) : List Tok :=
   let m := c.headD []
   let sc? := DsZSet.zScore z m
-  let mTok : Tok := if sc?.isSome then .bulk m else .bulk (Bytes.ofString "INVALID-CHOICE")
+  let mTok : Tok := .bulk (if sc?.isSome then m else invalidChoice)
   if o.plain then [mTok] else
-  let (lon, lat) := scorePos (sc?.getD 0)
+  let pos := scorePos (sc?.getD 0)
   let l : Int := 1 + (if o.coord then 1 else 0) + (if o.dist then 1 else 0) + (if o.hash then 1 else 0)
   [.arr l, mTok] ++
-    (if o.dist then [match fixedDist with
-                     | some d => if c[1]? = some d then .bulk d else .bulk (Bytes.ofString "INVALID-CHOICE")
-                     | none => distTok c[1]?] else []) ++
-    (if o.hash then [.int (Geohash.encodeWGS84 lon lat).toNat] else []) ++
+    (if o.dist then [Tok.bulk (elemDist fixedDist c[1]?)] else []) ++
+    (if o.hash then [Tok.int (Geohash.encodeWGS84 pos.1 pos.2).toNat] else []) ++
     (if o.coord then
-      let i := if o.dist then 2 else 1
-      [.arr 2, coordTok lon c[i]?, coordTok lat c[i + 1]?] else [])
+      [Tok.arr 2, .bulk (coordText pos.1 c[if o.dist then 2 else 1]?), .bulk (coordText pos.2 c[(if o.dist then 2 else 1) + 1]?)] else [])
 
 def radiusReply (z : ZSet) (o : RadiusOpts) (fixedDist : Option Bytes) (ch : Choice) : List Tok :=
   let cs := chunks o.stride ((ch.getD []).length) (ch.getD [])
-  .arr cs.length :: cs.flatMap (radiusElem z o fixedDist)
+  .arr cs.length :: (cs.map (radiusElem z o fixedDist)).flatten
 
 /-- Encode's position check, the only way `GetAreasByRadiusWGS84` fails -/
 def outOfRange (lon lat : F64) : Bool :=
